@@ -20,12 +20,12 @@
    Proofs5.kw_type: void and the keyword primitives _Bool ... long double, pointers, arrays with a length,
    in any nesting (exactly the part of C07's sub-grammar that ct_name can print; qualifiers never appear in
    a ct_name).  SECOND SENTENCE (getctype(T, x) names the type x builds over T): C08_getctype_suffix_is_name — for EVERY
-   T, ffi_getctype(T, "*"), (T, "[n]"), (T, "[]") and (T, "(*)(args)") return exactly ct_name of the backend's
+   T, ffi_getctype(T, "*"), (T, "[n]"), (T, "[]") and (T, "( * )(args)") return exactly ct_name of the backend's
    pointer-to-T / T[n] / T[] / function-pointer-returning-T type (with the parentheses an array T needs);
    C08_typeof_getctype_suffix composes the first two with the re-parsing theorem: typeof(getctype(T, "*")) = T* and
    typeof(getctype(T, "[n]")) = T[n] on the kw_type class (C side).  MISSING: function types, *_t / typedef / struct / union / enum names, open arrays, the
    Python-side parser (C07_agree_partial relates it to the C side on the same class), and getctype(T, x) for
-   other x (identifiers, composite declarators such as "*[3]" or "(*)[3]").  Those are decided by the correspondence runs (both FFIs, gcc). *)
+   other x (identifiers, composite declarators such as "*[3]" or "( * )[3]").  Those are decided by the correspondence runs (both FFIs, gcc). *)
 From Coq Require Import List Arith NArith ZArith Lia Bool String.
 Import ListNotations.
 From Cffi Require Import C07.Model C07.Realize C08.Gen C08.Model C08.Proofs C08.Spec C08.Proofs2 C08.Proofs3 C08.Proofs4.
@@ -168,7 +168,7 @@ Theorem C08_typeof_getctype_suffix : forall (g : genv) (osz : nat) T,
 Proof. exact Proofs6.typeof_getctype_suffix. Qed.
 Print Assumptions C08_typeof_getctype_suffix.
 
-(* non-vacuity: T = int[3]; "*" needs the parentheses; the hypotheses for "int(*)[3]" and "int[7][3]" hold *)
+(* non-vacuity: T = int[3]; "*" needs the parentheses; the hypotheses for "int( * )[3]" and "int[7][3]" hold *)
 Example C08_example_suffix :
   let T := CArr (CPrim 7) (Some 3%Z) in
   let g := mkGenv [] [] [] [] in
